@@ -47,7 +47,7 @@ func c03CheckCert(env *eagrEnv, led *eagrLedger, a ensureAction) string {
 		return v.(string)
 	}
 	res := func() string {
-		if cert.Step != cert_() {
+		if cert.Step != c03CertStep() {
 			return fmt.Sprintf("certificate step is %d, not cert", cert.Step)
 		}
 		if cert.Round != blk.Round() {
@@ -108,7 +108,7 @@ func c03CheckCert(env *eagrEnv, led *eagrLedger, a ensureAction) string {
 	return res
 }
 
-func cert_() step { return cert }
+func c03CertStep() step { return cert }
 
 func c03Oracle(r *ve.Run, b *eagrBFS, pre *eagrSys, e eagrEv, post *eagrSys, out *eagrOut, path func() []eagrEv) {
 	if out.panicMsg != "" {
